@@ -112,6 +112,10 @@ pub struct Ctx {
     pub rng: Rng,
     pub evals: u64,
     pub nontrivial: HashSet<u64>,
+    /// the distinct-state set is exact while it is small; beyond `NT_CAP` entries per context it
+    /// becomes an adaptive sample (hashes whose low `nt_level` bits are zero) and the reported count
+    /// is `len << nt_level`, flagged as an estimate
+    pub nt_level: u32,
     pub counters: BTreeMap<String, u64>,
     pub samples: Vec<(u64, J)>,
     pub violations: Vec<Violation>,
@@ -123,6 +127,8 @@ pub struct Ctx {
     /// free-form per-check maxima (e.g. max nesting depth decoded)
     pub maxima: BTreeMap<String, u64>,
 }
+
+pub const NT_CAP: usize = 6_000_000;
 
 pub fn prop_num(prop: &str) -> u64 {
     hash_bytes(prop.as_bytes())
@@ -140,6 +146,7 @@ impl Ctx {
             rng: Rng::new(seed),
             evals: 0,
             nontrivial: HashSet::new(),
+            nt_level: 0,
             counters: BTreeMap::new(),
             samples: Vec::new(),
             violations: Vec::new(),
@@ -172,10 +179,25 @@ impl Ctx {
         }
     }
     pub fn nontrivial(&mut self, h: u64) {
+        let h = crate::rng::mix(0x6e74, h);
+        if h & ((1u64 << self.nt_level) - 1) != 0 {
+            return;
+        }
         self.nontrivial.insert(h);
+        if self.nontrivial.len() > NT_CAP {
+            self.nt_raise(self.nt_level + 1);
+        }
+    }
+    fn nt_raise(&mut self, level: u32) {
+        self.nt_level = level;
+        let mask = (1u64 << level) - 1;
+        self.nontrivial.retain(|h| h & mask == 0);
     }
     pub fn nontrivial_bytes(&mut self, b: &[u8]) {
-        self.nontrivial.insert(hash_bytes(b));
+        self.nontrivial(hash_bytes(b));
+    }
+    pub fn distinct_nontrivial(&self) -> u64 {
+        (self.nontrivial.len() as u64) << self.nt_level
     }
     /// keep a few representative cases (lowest case-hash first so that the merged choice is
     /// deterministic)
@@ -236,7 +258,15 @@ impl Ctx {
     }
     fn merge(&mut self, o: Ctx) {
         self.evals += o.evals;
-        self.nontrivial.extend(o.nontrivial);
+        let level = self.nt_level.max(o.nt_level);
+        if level > self.nt_level {
+            self.nt_raise(level);
+        }
+        let mask = (1u64 << level) - 1;
+        self.nontrivial.extend(o.nontrivial.into_iter().filter(|h| h & mask == 0));
+        while self.nontrivial.len() > 4 * NT_CAP {
+            self.nt_raise(self.nt_level + 1);
+        }
         for (k, v) in o.counters {
             *self.counters.entry(k).or_insert(0) += v;
         }
@@ -417,7 +447,10 @@ pub fn result_json(chk: &dyn Check, r: &RunResult) -> J {
         ("seed", J::UInt(m.seed)),
         ("budget", J::Num(m.budget)),
         ("evaluations", J::UInt(m.evals)),
+        // the retained set is a true (measured) lower bound; once it is a sample the estimate is given next to it
         ("distinct_nontrivial", J::UInt(m.nontrivial.len() as u64)),
+        ("distinct_nontrivial_exact", J::Bool(m.nt_level == 0)),
+        ("distinct_nontrivial_estimate", J::UInt(m.distinct_nontrivial())),
         ("rule", J::Str(chk.rule())),
         ("assumptions", J::Arr(chk.assumptions().into_iter().map(J::Str).collect())),
         (
